@@ -116,10 +116,11 @@ INT02 = {"k": "int", "ivs": [[0, 2]]}
 
 def tables(db, variant=0, text_vals=(100, 101, 102)):
     """The two base tables of QueryShapes with their declared schema and the rows of `db`.
-    variant 0: declared size = exact number of rows; 1: declared size = [0, rows+1]."""
+    variant 0: declared size = exact number of rows; 1: declared size = [0, rows+1] and t.a is a FOREIGN KEY."""
     texts = sorted(TEXT[c] for c in text_vals)
     tcols = [
-        {"n": "a", "t": INT02, "c": None},
+        # variant 1 declares t.a a FOREIGN KEY: a constraint that says nothing about uniqueness (the rows repeat values of a)
+        {"n": "a", "t": INT02, "c": "fk" if variant == 1 else None},
         {"n": "b", "t": {"k": "opt", "t": INT02}, "c": None},
         {"n": "s", "t": {"k": "text", "ivs": [[x, x] for x in texts]}, "c": None},
     ]
